@@ -344,6 +344,16 @@ static void exec_op(int idx, OpLine *o)
         else { g_slot_failed[a] = 1; g_slot_failed[b] = 1; }
         uint32_t bits; memcpy(&bits, &score, 4);
         fprintf(g_out, "r %d C rc=%d score=%.6f bits=%08x\n", idx, rc, (double)score, bits);
+    } else if (!strcmp(op, "M") || !strcmp(op, "V")) {
+        /* M slot rename unalign -> reformat_settings_msa ; V slot exit_on_error -> kalign_check_msa (both public API) */
+        int sl = atoi(o->tok[1]);
+        if (slot_blocked(idx, op, sl)) return;
+        if (!g_slot[sl]) { fprintf(g_out, "r %d %s rc=-777 skipped=1\n", idx, op); return; }
+        enter();
+        int rc = op[0] == 'M' ? reformat_settings_msa(g_slot[sl], atoi(o->tok[2]), atoi(o->tok[3])) : kalign_check_msa(g_slot[sl], atoi(o->tok[2]));
+        leave();
+        fprintf(g_out, "r %d %s rc=%d\n", idx, op, rc);
+        if (rc != 0) { g_failed = 1; g_slot_failed[sl] = 1; }
     } else if (!strcmp(op, "F")) {
         int sl = atoi(o->tok[1]);
         enter();
@@ -447,6 +457,9 @@ static void root_entry(void)
 #endif
     driver_loop();
     fflush(g_out);
+#ifdef SIM_COVERAGE
+    { extern void __gcov_dump(void); __gcov_dump(); }   /* vf/coverage.py builds only */
+#endif
     _exit(0);
 }
 
